@@ -199,7 +199,7 @@ func postingsJSON(ps ledger.Postings) string {
 
 // ---------------------------------------------------------------------- C36 (numscript / request decoding part)
 
-const ruleC36E1 = "amounts from {0,1,2,99,100,2^53±1,2^63±1,2^64±1,10^30,random big} sent through four request forms decoded by the real API structs (bulking.TransactionRequest JSON): postings with a JSON-number amount, script literal, monetary variable in string form, monetary variable as {asset, amount: <JSON number>} and {asset, amount: \"string\"}; executed on the machine runtime; the posting that comes out must carry exactly the integer that went in; non-trivial = amount above 2^53; distinct = by form+amount"
+const ruleC36E1 = "amounts from {0,1,2,99,100,2^53±1,2^63±1,2^64±1,10^30,random big} sent through five request forms decoded by the real API structs (bulking.TransactionRequest JSON): postings with a JSON-number amount, script literal, two literals of one asset in one script, monetary variable in string form, monetary variable as {asset, amount: <JSON number>} and {asset, amount: \"string\"}; executed on the machine runtime; the posting that comes out must carry exactly the integer that went in; non-trivial = amount above 2^53; distinct = by form+amount"
 
 func TestC36(t *testing.T) {
 	st := stats.New("C36", "exploration", ruleC36E1)
@@ -212,13 +212,17 @@ func TestC36(t *testing.T) {
 		if rapid.Bool().Draw(rt, "edge") {
 			amount = new(big.Int).Set(rapid.SampledFrom(gen.EdgeAmounts).Draw(rt, "edgeAmount"))
 		}
-		form := rapid.SampledFrom([]string{"postings-number", "script-literal", "var-string", "var-object-number", "var-object-string"}).Draw(rt, "form")
+		form := rapid.SampledFrom([]string{"postings-number", "script-literal", "script-two-literals", "var-string", "var-object-number", "var-object-string"}).Draw(rt, "form")
+		second := new(big.Int).Set(rapid.SampledFrom(gen.EdgeAmounts).Draw(rt, "secondAmount"))
 		var body string
 		switch form {
 		case "postings-number":
 			body = fmt.Sprintf(`{"postings":[{"source":"world","destination":"a","asset":"USD/2","amount":%s}]}`, amount)
 		case "script-literal":
 			body = fmt.Sprintf(`{"script":{"plain":"send [USD/2 %s] (\n source = @world\n destination = @a\n)"}}`, amount)
+		case "script-two-literals":
+			// two literals of one asset in one script (the compiler shares identical literals)
+			body = fmt.Sprintf(`{"script":{"plain":"send [USD/2 %s] (\n source = @world\n destination = @a\n)\nsend [USD/2 %s] (\n source = @world\n destination = @b\n)"}}`, amount, second)
 		case "var-string":
 			body = fmt.Sprintf(`{"script":{"plain":"vars {\n monetary $m\n}\nsend $m (\n source = @world\n destination = @a\n)","vars":{"m":"USD/2 %s"}}}`, amount)
 		case "var-object-number":
@@ -246,6 +250,17 @@ func TestC36(t *testing.T) {
 		res, err := runtime.Execute(context.Background(), &progStore{p: p}, vars)
 		if err != nil {
 			rt.Fatalf("C36: amount %s in form %s: execution failed: %v (vars %v)", amount, form, err, core.Vars)
+		}
+		if form == "script-two-literals" {
+			// zero-amount postings are kept by the machine runtime
+			if len(res.Postings) != 2 || res.Postings[0].Amount.Cmp(amount) != 0 || res.Postings[1].Amount.Cmp(second) != 0 {
+				rt.Fatalf("C36: literals %s and %s in one script came out as %s", amount, second, postingsJSON(res.Postings))
+			}
+			st.Case(form+amount.String()+"/"+second.String(), amount.Cmp(two53) > 0 || second.Cmp(two53) > 0, func() any {
+				return map[string]any{"form": form, "amounts": []string{amount.String(), second.String()}}
+			}, "form:"+form)
+			st.Add("completed_checks", 1)
+			return
 		}
 		if len(res.Postings) != 1 || res.Postings[0].Amount.Cmp(amount) != 0 {
 			rt.Fatalf("C36: amount %s sent as %s came out as %s (vars %v)", amount, form, postingsJSON(res.Postings), core.Vars)
